@@ -64,6 +64,12 @@ def handler_escape(inputs):
             'get-ok': b'GET /comp HTTP/1.1\r\nHost: x\r\n\r\n',
             'post-ok': b'POST /comp HTTP/1.1\r\nHost: x\r\nContent-Length: 2\r\n\r\nxx',
         }
+        # the peer's Accept-Encoding is parsed after the request was processed: sloppy / malformed values must not
+        # make the answer disappear
+        for i, ae in enumerate((b'gzip;q=high', b'gzip;q=', b'gzip;q', b'gzip;', b';', b'gzip;q=0x1', b'gzip;q=1.0.0',
+                                b'gzip;level=9', b'gzip;q=1,0', b'br;q=1.O, gzip', b',,', b'*;q=', b'\xff\xfe')):
+            reqs[f'post-accept-encoding-{i}'] = b'POST /comp HTTP/1.1\r\nHost: x\r\nAccept-Encoding: ' + ae + b'\r\nContent-Length: 2\r\n\r\nxx'
+            reqs[f'get-accept-encoding-{i}'] = b'GET /comp HTTP/1.1\r\nHost: x\r\nAccept-Encoding: ' + ae + b'\r\n\r\n'
         for name, data in reqs.items():
             n_before = len(srv.escaped)
             ans = srv.raw(data)
